@@ -40,8 +40,8 @@ MODELLED = ("parse_instruction_msp430 for CPU type .msp430 (all VERSION_MSP430 r
 NOT_MODELLED = ("MSP430X (20-bit, CPU type .msp430x) ENCODING: rpt prefixes, mova/calla/pushm/popm/rxxm, the ...x "
                 "extended forms and OP_X_* row types (the decoder side of these words is modelled: text and length); "
                 "symbols/expressions inside operands (C04/C11) and therefore the pass-1 'no constant generator' flag "
-                "byte 1 as produced by forward references (its effect on pass 2 is modelled: ctx.flag); ranges at or "
-                "above 2^31 in disasm_range_msp430 (int start/end)")
+                "byte 1 as produced by forward references (its effect on pass 2 is modelled: ctx.flag); the wrap-around "
+                "guard of disasm_range_msp430 at the last word of the 32-bit address space (the model walks over Nat)")
 
 # =============================================================================================
 # Arch: reference decoder / encoder written from the user's guide
@@ -714,7 +714,7 @@ def gen_walks(ctx, n):
         if rng.random() < 0.2:
             buf += bytes([rng.getrandbits(8)])
         start = rng.choice([0, 0x1000, 0x1000, 0x1002, 0x1001, 0xffd0, 0xffda, 0xffdc, 0xffde, 0xffe0, 0xffe1, 0xfff8, 0xfffe,
-                            0x10000, 0xfffc, 0x7ffffe00, 0x2003])
+                            0x10000, 0xfffc, 0x7ffffe00, 0x2003, 0x7ffffff8, 0x80000000, 0xfffe0000])
         end = start + rng.choice([0, 1, 2, 3, len(buf) - 1, len(buf) - 1, max(0, len(buf) - 2), rng.randrange(len(buf)),
                                   len(buf) + 3, len(buf) + 8])
         out.append((start, end, buf + bytes(8) if rng.random() < 0.5 else buf))
